@@ -80,4 +80,19 @@ inductive XsdBase64 : Str → List Nat → Prop
       XsdBase64 (b64AlphaChar (a / 4) :: b64AlphaChar (a % 4 * 16 + b / 16)
         :: b64AlphaChar (b % 16 * 4 + c / 64) :: b64AlphaChar (c % 64) :: rest) (a :: b :: c :: bs)
 
+/-- RFC 2396 characters of a URI reference other than the fragment separator:
+alphanumerics, reserved `; / ? : @ & = + $ ,`, marks `- _ . ! ~ * ' ( )`, and `%` -/
+def rfcUriChars : Str :=
+  ['a','b','c','d','e','f','g','h','i','j','k','l','m','n','o','p','q','r','s','t','u','v','w','x','y','z',
+   'A','B','C','D','E','F','G','H','I','J','K','L','M','N','O','P','Q','R','S','T','U','V','W','X','Y','Z',
+   '0','1','2','3','4','5','6','7','8','9',
+   ';','/','?',':','@','&','=','+','$',',','-','_','.','!','~','*',Char.ofNat 39,'(',')','%']
+
+def rfcUriChar (c : Char) : Bool := rfcUriChars.contains c
+
+/-- an (ASCII) URI reference: non-empty, RFC 2396 characters, at most one `#`
+(the fragment after it may be empty, as in `http://www.w3.org/2000/09/xmldsig#`) -/
+def isRfcUriRef (u : Str) : Bool :=
+  !u.isEmpty && (partitionChar '#' u).1.all rfcUriChar && (partitionChar '#' u).2.2.all rfcUriChar
+
 end Xs.Spec
